@@ -143,6 +143,31 @@ def oracle(ctx, deep=False):
                                 ctx.violations.append({"what": what, "detail": detail, "input": {
                                     "cfg": meanx.cfg_json(cfg), "control": G.agg_json(a), "treatment": G.agg_json(b),
                                     "cl2": "99/100"}})
+    # large samples: the statistic just inside / outside the critical value of the t distribution with thousands of degrees
+    # of freedom (where a normal quantile would differ in the 4th digit)
+    import scipy.stats as st
+    for ev in (False, True):
+        for alt in meanx.ALTS:
+            for n in (1000, 20000):
+                for cl in (F(95, 100), F(975, 1000)):
+                    for side in (1 - 2e-4, 1 + 2e-4):
+                        df = 2 * n - 2
+                        q = (1 + float(cl)) / 2 if alt == "two-sided" else float(cl)
+                        crit = st.t.ppf(q, df) * side * (-1 if alt == "less" else 1)
+                        m1, v = 10.0, 1.0
+                        m2 = m1 + crit * (2 * v / n) ** 0.5
+                        cfg = {"numer": "x", "denom": None, "numer_covariate": None, "denom_covariate": None,
+                               "alternative": alt, "confidence_level": cl, "equal_var": ev, "use_t": True,
+                               "alpha": F(1, 20), "ratio": F(1), "power": F(4, 5)}
+                        a = A.Aggregates(count_=n, mean_={c: m1 for c in G.COLS}, var_={c: v for c in G.COLS},
+                                         cov_={(p, q_): 0.0 for p in G.COLS for q_ in G.COLS if p < q_})
+                        b = A.Aggregates(count_=n, mean_={c: m2 for c in G.COLS}, var_={c: v for c in G.COLS},
+                                         cov_={(p, q_): 0.0 for p in G.COLS for q_ in G.COLS if p < q_})
+                        fails = check_relations(cfg, a, b, F(99, 100)) or []
+                        sweep += 1
+                        for what, detail in fails:
+                            ctx.violations.append({"what": what, "detail": detail, "input": {
+                                "cfg": meanx.cfg_json(cfg), "control": G.agg_json(a), "treatment": G.agg_json(b), "cl2": "99/100"}})
     ctx.evaluations += sweep
     ctx.extra["boundary_sweep_cases"] = sweep
 
